@@ -58,6 +58,8 @@ class Src:
     EXCLUDE_DIRS = ("tests",)
     EXCLUDE_FILES = ("c2h4_para.py",)
 
+    INLINE_TEMPS = False    # (experimental, off: it also rewrites the reference shapes the older rules are anchored on) single-use temporaries read by the next statement are substituted (normal form robust to `tmp = a.f(); x = tmp.g()` splitting)
+
     def __init__(self, repo="/repo", package="renormalizer"):
         self.repo = os.path.abspath(repo)
         self.pkg = package
@@ -97,6 +99,12 @@ class Src:
                 if self._alpha_db:
                     from . import alpha
                     alpha.normalise_module(rel, mod, self._alpha_db, self.alpha_renamed)
+                if self.INLINE_TEMPS:
+                    for fn_ in [n for n in ast.walk(mod) if isinstance(n, (ast.FunctionDef, ast.AsyncFunctionDef))]:
+                        try:
+                            fn_.body = inline_adjacent_temps(fn_).body
+                        except RecursionError:
+                            pass
                 self.modules[rel] = mod
                 self.text[rel] = txt
                 self._index(rel, mod)
@@ -364,3 +372,57 @@ def returned_names(fn):
 def defs_of(fn, name):
     """values assigned to the plain local `name` in fn"""
     return [n.value for n in walk_no_nested(fn) if isinstance(n, ast.Assign) and any(isinstance(t, ast.Name) and t.id == name for t in n.targets)]
+
+
+def inline_adjacent_temps(fn):
+    """deep copy of function node fn in which a local that is assigned once (plain name, no augmented assignment), read exactly once, and read in the statement
+    that immediately follows its definition, is substituted into that statement.  Undoes `tmp = a.f(); x = tmp.g()` style splitting before a rule looks at call chains."""
+    import copy
+    fn = copy.deepcopy(fn)
+    stores, loads = {}, {}
+    for n in ast.walk(fn):
+        if isinstance(n, ast.Name):
+            (stores if isinstance(n.ctx, (ast.Store, ast.Del)) else loads).setdefault(n.id, []).append(n)
+    cand = {k for k in stores if len(stores[k]) == 1 and len(loads.get(k, [])) == 1}
+
+    def rewrite(body):
+        out = []
+        i = 0
+        while i < len(body):
+            st = body[i]
+            for fld in ("body", "orelse", "finalbody"):
+                sub = getattr(st, fld, None)
+                if isinstance(sub, list) and sub and isinstance(sub[0], ast.stmt) and not isinstance(st, (ast.FunctionDef, ast.ClassDef)):
+                    setattr(st, fld, rewrite(sub))
+            if isinstance(st, ast.Assign) and len(st.targets) == 1 and isinstance(st.targets[0], ast.Name) and st.targets[0].id in cand and i + 1 < len(body):
+                name = st.targets[0].id
+                nxt = body[i + 1]
+                # the single read must be in the next statement itself (not inside a nested block of it)
+                header = [x for x in ast.walk(nxt) if isinstance(x, ast.Name) and x.id == name and isinstance(x.ctx, ast.Load)]
+                nested = [x for fld in ("body", "orelse", "finalbody") for s_ in (getattr(nxt, fld, None) or []) if isinstance(s_, ast.stmt) for x in ast.walk(s_)
+                          if isinstance(x, ast.Name) and x.id == name]
+                if len(header) == 1 and not nested:
+                    class Sub(ast.NodeTransformer):
+                        def visit_Name(self, n):
+                            return copy.deepcopy(st.value) if n.id == name and isinstance(n.ctx, ast.Load) else n
+                    body[i + 1] = Sub().visit(nxt)
+                    ast.fix_missing_locations(body[i + 1])
+                    i += 1
+                    continue
+            out.append(st)
+            i += 1
+        return out
+    changed = True
+    rounds = 0
+    while changed and rounds < 5:
+        before = ast.dump(fn)
+        fn.body = rewrite(fn.body)
+        # recompute candidates after a round
+        stores, loads = {}, {}
+        for n in ast.walk(fn):
+            if isinstance(n, ast.Name):
+                (stores if isinstance(n.ctx, (ast.Store, ast.Del)) else loads).setdefault(n.id, []).append(n)
+        cand = {k for k in stores if len(stores[k]) == 1 and len(loads.get(k, [])) == 1}
+        changed = ast.dump(fn) != before
+        rounds += 1
+    return fn
